@@ -42,6 +42,10 @@ Lemmas(X) ==
   /\ \A e \in Ev(X) : Races(X, h, e) = RacesStmt(X, h, e)            \* RaceDefsAgree
   /\ RacesAreDirect(X, h)                                            \* RacesDirect
   /\ DepSymmetric(X)
+  /\ LET nf  == NormalForm(X, Preds(X))                                \* the normal form is a linear extension of HB
+         pos == [e \in Ev(X) |-> CHOOSE i \in 1..Len(nf) : nf[i] = e]
+     IN  /\ Len(nf) = X.n /\ { nf[i] : i \in 1..Len(nf) } = Ev(X)
+         /\ \A p \in h : pos[p[1]] < pos[p[2]]
 AllLemmas == Lemmas(E)
 \* the races of an event never change when the execution grows (they depend on the prefix only)
 RacesStable == [][LET X1 == E
